@@ -10,7 +10,7 @@ package otp
 //@ spec otp_entry(s, m) := str_split(s, ",")[m]
 //@
 //@ func (*OTP).LoginPost
-//@   property C01 C02 C03 C04 C12 C16 C18 C17
+//@   property C01 C02 C03 C04 C07 C09 C12 C16 C18 C17
 //@   ensures[C17] no_secret_leak: secrets_clean
 //@   invariant loop#1 index_inv: rangeindex >= -1
 //@
@@ -25,8 +25,13 @@ package otp
 //@              sha512(val(vals, "GetPassword")) == b64std_dec(otp_entry(OTPs(u), m)))
 //@   -- C12/C02: the matched one-time password is consumed (saved) before any login event is
 //@   -- fired - the 2FA hijack may park the login and another handler completes it later
-//@   ensures[C12,C02,C04,C03] consumed_before_events: each Fire("Before", _, _, _, _) => before Store.Save(_) -> ?e :: e == nil
+//@   ensures[C12,C02,C04,C03,C01] consumed_before_events: each Fire("Before", _, _, _, _) => before Store.Save(_) -> ?e :: e == nil
 //@   ensures[C01] halfauth_cleared: each Sess.Put("uid", _) => after Sess.Del("halfauth")
+//@   -- C07: the half-auth mark of a remembered session is only cleared by a login that is in fact
+//@   -- written to the session
+//@   ensures[C07] halfauth_only_cleared_by_login: each Sess.Del("halfauth") => before Sess.Put("uid", _)
+//@   -- C09: a login is announced with the after-auth event (which is what starts the idle clock)
+//@   ensures[C09] login_announced: each Sess.Put("uid", _) => after Fire("After", EventAuth, _, _, _)
 //@   ensures[C01] only_uid: each Sess.Put(?k, _) => k == "uid"
 //@   ensures[C02] hijack_fired: each Sess.Put("uid", ?v) =>
 //@       before Fire("Before", EventAuthHijack, ?cu, _, _) -> (?hd, ?e) :: hd == false && e == nil && PID(cu) == v
